@@ -205,34 +205,6 @@ class LLProxy:
         return getattr(self._ll, k)
 
 
-_SHAPE = []
-
-
-def estimate_shape():
-    """1 = the pinned buffer-size formula of Tree._as_newick_fast, 2 = the proposed repair,
-    0 = anything else (then the model's formula is not compared with the observed size)."""
-    if not _SHAPE:
-        import inspect
-        import re
-        import tskit
-        src = inspect.getsource(tskit.Tree._as_newick_fast)
-        pinned = [r"root_time = max\(1, self\.time\(root\)\)",
-                  r"max_label_size = math\.ceil\(math\.log10\(self\.tree_sequence\.num_nodes\)\)",
-                  r"single_node_size = \(\s*5 \+ max_label_size \+ math\.ceil\(math\.log10\(root_time\)\) \+ precision\s*\)",
-                  r"buffer_size = 1 \+ single_node_size \* self\.tree_sequence\.num_nodes"]
-        repaired = [r"max_branch = self\.time\(root\) - self\.tree_sequence\.nodes_time\.min\(\)",
-                    r"max_label_size = len\(str\(self\.tree_sequence\.num_nodes\)\)",
-                    r"single_node_size = 4 \+ max_label_size \+ len\(f\"\{max_branch:\.\{precision\}f\}\"\)",
-                    r"buffer_size = 1 \+ single_node_size \* self\.tree_sequence\.num_nodes"]
-        if all(re.search(x, src) for x in pinned):
-            _SHAPE.append(1)
-        elif all(re.search(x, src) for x in repaired):
-            _SHAPE.append(2)
-        else:
-            _SHAPE.append(0)
-    return _SHAPE[0]
-
-
 def labels_arg(q, tskit):
     lab = q["labels"]
     if lab == "default":
@@ -301,10 +273,8 @@ def run_queries(tree, ts, q, discrete, want_arrays):
                 # call as text_formats._build_newick); opaque to the model
                 obs["tokens"] = [[int(tree.parent(u)), u, "{0:.{1}f}".format(tree.branch_length(u), p)]
                                  for u in nodes if u != r]
-                obs["T"] = math.ceil(math.log10(max(1, tree.time(r))))
+                # len(f"{max_branch:.{precision}f}") of Tree._as_newick_fast: float rendering, trusted
                 obs["W"] = len("{0:.{1}f}".format(tree.time(r) - float(ts.nodes_time.min()), p))
-                obs["shape"] = estimate_shape()
-                obs["whole_leaves"] = [int(u) for u in tree.leaves()]
     finally:
         tree._ll_tree = proxy._ll
     return obs
@@ -347,20 +317,11 @@ def judge(parent, flags, times, discrete, q, obs, need_fast_general=True):
     it = Interner()
     want = it.of_expected(root, ch, label, token)
 
-    # is the requested root part of the sample-bearing tree (below one of tree.roots)?
-    top = root
-    while parent[top] != NULL:
-        top = parent[top]
-    live = any(flags[v] & 1 for v in subtree_nodes(ch, top))
-
     def check_string(name, o):
         if isinstance(o, dict):
             if o["err"] == "LibraryError" and "buffer" in o["msg"].lower():
                 fails.append(("newick-buffer:" + buffer_class(parent, flags, times, root),
                               "%s: %s (root=%d precision=%d, %d nodes)" % (name, o["msg"], root, p, len(parent))))
-            elif o["err"] == "RecursionError" and name != "fast" and depth_below(ch, root) >= 400:
-                fails.append(("newick-recursion:deep-tree", "%s: RecursionError on the Python path, depth %d below root %d"
-                              % (name, depth_below(ch, root), root)))
             else:
                 fails.append(("newick-error:%s:%s" % (name, o["err"]), o["msg"]))
             return
@@ -370,14 +331,8 @@ def judge(parent, flags, times, discrete, q, obs, need_fast_general=True):
             fails.append(("newick-unparsable:" + name, "%s in %r" % (e, o[:120])))
             return
         if got != want:
-            if lab == "ms" and not live and name == "as_newick" and not ibl:
-                # as_newick's own legacy label dict is built from tree.leaves() (leaves below
-                # tree.roots), so leaves of a subtree outside the sample-bearing tree get no label
-                fails.append(("newick-ms-labels:dead-subtree", "legacy ms labels missing below root %d "
-                              "(not under a tree root): %r" % (root, o[:120])))
-            else:
-                fails.append(("newick-mismatch:" + name, "parsed tree differs from the tree below root %d: %r"
-                              % (root, o[:200])))
+            fails.append(("newick-mismatch:" + name, "parsed tree differs from the tree below root %d: %r"
+                          % (root, o[:200])))
 
     check_string("as_newick", obs["out"])
     if "general" in obs and obs["general"] != obs["out"]:
@@ -455,20 +410,22 @@ def coq_newick_term(q, obs, discrete, N):
             fast = "(Some (FastOverflow %s))" % cz(obs["fast_bufsize"])
         else:
             fast = "(Some (FastOk %s %s))" % (cz(obs["fast_bufsize"]), cstr(f))
-    o = obs["out"]
-    if isinstance(o, str):
-        outs = "(OutStr %s)" % cstr(o)
-    elif o["err"] == "LibraryError" and "buffer" in o["msg"].lower():
-        outs = "OutOverflow"
-    else:
-        outs = "OutSkip"
-    if q["root"] is None and len(obs["whole_roots"]) != 1:
-        outs = "OutSkip"
-    return ("c18_check_newick (mk_ctree %s %s %s %s %s) %s %s %s %s %s %s %s %s %s %s %s %s %s %s"
+    return ("c18_check_newick (mk_ctree %s %s %s %s %s) %s %s %s %s %s %s %s %s %s %s %s"
             % (clist(a["lc"]), clist(a["rc"]), clist(a["ls"]), clist(a["par"]), clist(a["flags"]),
                cz(N), crose(r, kids), cz(obs["root_parent"]), toks, labs, "true" if ibl else "false",
-               cz(p), cz(obs["T"]), fast, cstr(obs["general"]), cz(obs["shape"]), cz(obs["W"]),
-               clist(obs["whole_leaves"]), outs))
+               cz(p), fast, cstr(obs["general"]), cz(obs["W"]), cout(q, obs)))
+
+
+def cout(q, obs):
+    """What Tree.as_newick itself returned, as a Model.out_obs."""
+    o = obs["out"]
+    if q["root"] is None and len(obs["whole_roots"]) != 1:
+        return "OutSkip"
+    if isinstance(o, str):
+        return "(OutStr %s)" % cstr(o)
+    if o["err"] == "LibraryError" and "buffer" in o["msg"].lower():
+        return "OutOverflow"
+    return "OutSkip"
 
 
 # ----------------------------------------------------------------------------------
@@ -1346,7 +1303,7 @@ class NewickExact(Newick):
         return ("c18_check_exact (mk_ctree %s %s %s %s %s) %s %s %s %s %s %s %s %s %s %s %s"
                 % (clist(a["lc"]), clist(a["rc"]), clist(a["ls"]), clist(a["par"]), clist(a["flags"]),
                    cz(tc["n"]), crose(r, kids), cz(obs["root_parent"]), clist(st), labs,
-                   "true" if ibl else "false", cz(p), fast, cstr(obs["general"]), cz(obs["shape"]), cz(obs["W"])))
+                   "true" if ibl else "false", cz(p), fast, cstr(obs["general"]), cz(obs["W"]), cout(q, obs)))
 
 
 class BufSize(Family):
@@ -1388,8 +1345,7 @@ class BufSize(Family):
             out = err_obs(e)
         tree._ll_tree = proxy._ll
         return {"out": out, "bufsize": proxy.sizes[-1] if proxy.sizes else None,
-                "W": len("{0:.{1}f}".format(tree.time(root) - float(ts.nodes_time.min()), p)),
-                "shape": estimate_shape()}
+                "W": len("{0:.{1}f}".format(tree.time(root) - float(ts.nodes_time.min()), p))}
 
     def oracle(self, case, obs):
         n, rt, p = case["n"], case["rt"], case["precision"]
@@ -1401,8 +1357,7 @@ class BufSize(Family):
     def coq_check(self, case, obs):
         if obs["bufsize"] is None:
             return None
-        return "c18_check_bufsize %s %s %s %s %s %s" % (cz(obs["shape"]), cz(case["n"]), cz(case["rt"]),
-                                                       cz(case["precision"]), cz(obs["W"]), cz(obs["bufsize"]))
+        return "c18_check_bufsize %s %s %s" % (cz(case["n"]), cz(obs["W"]), cz(obs["bufsize"]))
 
     def nontrivial(self, case, obs):
         return case["n"] > 1
@@ -1414,7 +1369,8 @@ class BufSize(Family):
 FAMILIES = [Newick, NewickExact, NewickTs, BufSize, Nexus, Fasta, Wrap]
 
 NOT_COVERED = [
-    "float <-> decimal rendering (printf %.*f, str.format) is trusted: the model takes branch tokens as opaque strings",
+    "float <-> decimal rendering (printf %.*f, str.format) is trusted: the model takes branch tokens and the length W of the rendered maximal branch as opaque inputs (exact instance: integer / dyadic times)",
+    "the order in which tree.nodes(root, order='postorder') lists siblings (C01); build_newick only needs children before parents",
     "as_newick(root=tree.virtual_root) and precision outside 0..17 (fast path rejects them with ValueError)",
     "alignments() content itself (C03); only its transport into FASTA / nexus DATA is checked",
     "the traversal stack capacity in tsk_newick_converter_init (tsk_tree_get_size_bound) is not modelled",
